@@ -34,6 +34,7 @@ CONSTANTS Elements, AtomTypes, AtomGeoms, BondTypes,   \* vocabularies, read fro
           BondPool,         \* bond types used while building
           XyzSeq, QSeq,     \* coordinate triples / charges; conformer c of an atom uses entry xi+c-1 (cyclic)
           MaxAtoms, MaxBonds, MaxConfs,
+          MaxPar,           \* bonds allowed over one atom pair (parallel bonds: connect() twice, either direction)
           MaxEdits,         \* edits of the built object (each followed by a new write/read cycle of the SAME object)
           EditBonds,        \* bond types an existing bond may be re-typed to
           AliasPick,        \* alias modes the model picks from (subset of AliasModes)
@@ -170,13 +171,20 @@ CanAddAtom == phase = 0 /\ rec.kind # "none" /\ Len(rec.atoms) < rec.na
 AddAtom(p) == /\ CanAddAtom
               /\ rec' = [rec EXCEPT !.atoms = Append(@, p)]
               /\ UNCHANGED <<hist, again, pend, edits, phase, obj, text, back, text2, back2>> /\ last' = [act |-> "addatom"]
+OverPair(i, j) == Cardinality({k \in 1..Len(rec.bonds) : {rec.bonds[k].a, rec.bonds[k].b} = {i, j}})
 CanConnect == phase = 0 /\ rec.kind # "none" /\ Len(rec.atoms) = rec.na /\ Len(rec.bonds) < rec.nb
 Connect(i, j, bt) ==
   /\ CanConnect
   /\ i \in 1..Len(rec.atoms) /\ j \in 1..Len(rec.atoms) /\ i # j
-  /\ \A k \in 1..Len(rec.bonds) : {rec.bonds[k].a, rec.bonds[k].b} # {i, j}      \* one bond per pair
+  /\ OverPair(i, j) < MaxPar                                                      \* the bond list is a sequence, a pair may repeat
   /\ rec' = [rec EXCEPT !.bonds = Append(@, [a |-> i, b |-> j, bt |-> bt])]       \* (i, j) in the order given to connect()
   /\ UNCHANGED <<hist, again, pend, edits, phase, obj, text, back, text2, back2>> /\ last' = [act |-> "connect"]
+(* connect() once more over the pair of bond k with the same type, in the same or in the reversed direction *)
+Parallel(k, rev) ==
+  /\ CanConnect /\ k \in 1..Len(rec.bonds) /\ OverPair(rec.bonds[k].a, rec.bonds[k].b) < MaxPar
+  /\ rec' = [rec EXCEPT !.bonds = Append(@, IF rev THEN [a |-> rec.bonds[k].b, b |-> rec.bonds[k].a, bt |-> rec.bonds[k].bt]
+                                                  ELSE rec.bonds[k])]
+  /\ UNCHANGED <<hist, again, pend, edits, phase, obj, text, back, text2, back2>> /\ last' = [act |-> "parallel"]
 Sized == phase = 0 /\ rec.kind # "none" /\ Len(rec.atoms) = rec.na /\ Len(rec.bonds) = rec.nb
 AddConf == /\ Sized /\ rec.nconf < rec.nc
            /\ rec' = [rec EXCEPT !.nconf = @ + 1]
@@ -291,6 +299,9 @@ TokensAccepted(t) ==
      /\ \A i \in 1..Len(t.blocks[c].atoms) : AcceptAtom(t.blocks[c].atoms[i].tok).out = "ok"
      /\ \A i \in 1..Len(t.blocks[c].bonds) : AcceptBond(t.blocks[c].bonds[i].tok) # "rejected"
 Shift(i, n) == IF "EndpointShift" \in Deviations THEN (i % n) + 1 ELSE i        \* atoms[b.a1] for atoms[b.a1 - 1]
+(* deviation RepeatedPairReadsSingle: the reader types bonds through a cache keyed on (atom pair, token): a later record *)
+(* over the same pair (either direction) with the same token is a cache hit and keeps the default type Single          *)
+SeenBefore(bs, i) == \E k \in 1..(i - 1) : {bs[k].a, bs[k].b} = {bs[i].a, bs[i].b} /\ bs[k].tok = bs[i].tok
 RBlock(kind, t) ==
   LET n == Len(t.atoms) IN
   [name  |-> t.name,
@@ -299,7 +310,8 @@ RBlock(kind, t) ==
    q     |-> IF kind = "Struct" THEN <<>> ELSE [i \in 1..n |-> t.atoms[i].q.v],   \* float("-0.000") = -0.0 = 0
    bonds |-> [i \in 1..Len(t.bonds) |-> [a |-> MinI(Shift(t.bonds[i].a, n), Shift(t.bonds[i].b, n)),
                                          b |-> MaxI(Shift(t.bonds[i].a, n), Shift(t.bonds[i].b, n)),
-                                         bt |-> AcceptBond(t.bonds[i].tok)]]]
+                                         bt |-> IF "RepeatedPairReadsSingle" \in Deviations /\ SeenBefore(t.bonds, i) THEN "Single"
+                                                ELSE AcceptBond(t.bonds[i].tok)]]]
 ReadModel(kind, t) ==
   IF t.out # "ok" \/ ~TokensAccepted(t) THEN Raised
   ELSE LET n == Len(t.blocks)
@@ -317,10 +329,11 @@ Init == /\ again = Nothing /\ hist = FALSE /\ edits = 0 /\ pend = NoPend /\ rec 
 (* guards are hoisted out of the quantifiers: AtomPool may hold every element x type x geometry triple *)
 Next == \/ (phase = 0 /\ rec.kind = "none" /\
              \E k \in Kinds, n \in Names, na \in 0..MaxAtoms :
-                \E nb \in 0..MinI(MaxBonds, (na * (na - 1)) \div 2), nc \in 1..(IF k = "Ens" THEN MaxConfs ELSE 1) :
+                \E nb \in 0..MinI(MaxBonds, MaxPar * ((na * (na - 1)) \div 2)), nc \in 1..(IF k = "Ens" THEN MaxConfs ELSE 1) :
                    New(k, n, na, nb, nc))
         \/ (CanAddAtom /\ \E p \in AtomPool : AddAtom(p))
         \/ (CanConnect /\ \E i, j \in 1..Len(rec.atoms), bt \in BondPool : Connect(i, j, bt))
+        \/ (CanConnect /\ MaxPar > 1 /\ \E k \in 1..Len(rec.bonds), rev \in BOOLEAN : Parallel(k, rev))
         \/ AddConf \/ Build \/ Write \/ Read \/ Write2 \/ Read2 \/ PickEdit \/ ApplyEdit \/ History \/ Reread
 Spec == Init /\ [][Next]_vars
 
